@@ -94,6 +94,16 @@ def make_aux(rng, x, xr):
         "angle": _angle(rng, x),
         "hs_min": 0.0,
     }
+    # the forcing may be stored in another dimension order than the spectra, or lack one of their dimensions
+    # (a wind series shared by all sites, a static depth): xarray pairs by name / broadcasts
+    u = rng.random()
+    if len(names) >= 2 and u < 0.2:
+        for k in ("wspd", "wdir", "dpt"):
+            a[k] = a[k].transpose(*[names[i] for i in rng.permutation(len(names))])
+    elif len(names) >= 1 and u < 0.35:
+        for k in (("wspd", "wdir") if rng.random() < 0.5 else ("dpt",)):
+            d = names[int(rng.integers(len(names)))]
+            a[k] = a[k].isel({d: 0}, drop=True)
     if f.size >= 2:
         a["freq_t"] = np.linspace(f[0] * 0.7, f[-1] * 1.1, max(3, f.size - 1))
         a["fcut"] = float(f[0] + (f[-1] - f[0]) * rng.uniform(0.2, 0.8))
